@@ -163,7 +163,7 @@ Section MapRef.
     revert b'. induction b as [|e b IH]; cbn [at_loop del_loop set_loop fill_last_hole]; intros b' H; [discriminate|]. unfold Model.live in H.
     rewrite bucket_items_cons. destruct (ekey K e) as [k0|] eqn:Ek.
     - destruct (eqv k k0) eqn:E.
-      + inversion H; subst. rewrite bucket_items_cons. simpl. rewrite Ek. exists k0, (bucket_items b). auto.
+      + inversion H; subst. rewrite bucket_items_cons. simpl. exists k0, (bucket_items b). auto.
       + destruct (set_loop K eqv k v b) as [[q r]|] eqn:D; [|discriminate]. inversion H; subst.
         destruct (IH _ eq_refl) as (k2 & r2 & E2 & P1 & P2). exists k2, ((k0, evalue K e) :: r2). repeat split; auto.
         * rewrite P1. apply perm_swap.
@@ -190,4 +190,310 @@ Section MapRef.
   Qed.
   Lemma bucket_items_app b c : bucket_items (b ++ c) = bucket_items b ++ bucket_items c.
   Proof. unfold Model.bucket_items. apply flat_map_app. Qed.
+
+  (* ---------------- the table of buckets *)
+  Notation tbl := (list (Z * bucket)).
+  Definition titems (t : tbl) : items := flat_map (fun hb => bucket_items (snd hb)) t.
+  (* everything outside the bucket that tget returns for h *)
+  Fixpoint trest (t : tbl) (h : Z) : items :=
+    match t with
+    | [] => []
+    | (k, b) :: t' => if (k =? h)%Z then titems t' else bucket_items b ++ trest t' h
+    end.
+
+  Lemma tget_split t h : Permutation (titems t) (bucket_items (tget K t h) ++ trest t h).
+  Proof.
+    induction t as [|[k b] t IH]; simpl; auto. destruct (k =? h)%Z; simpl; auto.
+    rewrite IH. apply Permutation_app_swap_app.
+  Qed.
+  Lemma tput_split t h b' : Permutation (titems (tput K t h b')) (bucket_items b' ++ trest t h).
+  Proof.
+    induction t as [|[k b] t IH]; simpl; auto. destruct (k =? h)%Z; simpl; auto.
+    rewrite IH. apply Permutation_app_swap_app.
+  Qed.
+  Lemma trest_tput_same t h b' : trest (tput K t h b') h = trest t h.
+  Proof.
+    induction t as [|[k b] t IH]; simpl.
+    - rewrite Z.eqb_refl. reflexivity.
+    - destruct (k =? h)%Z eqn:E; simpl; rewrite E; auto. rewrite IH. reflexivity.
+  Qed.
+  Lemma trest_sub t h x : In x (trest t h) -> In x (titems t).
+  Proof.
+    induction t as [|[k b] t IH]; simpl; auto. destruct (k =? h)%Z; rewrite !in_app_iff; intuition.
+  Qed.
+  Lemma tget_sub t h x : In x (bucket_items (tget K t h)) -> In x (titems t).
+  Proof. intros H. eapply Permutation_in; [symmetry; apply (tget_split t h)|]. apply in_app_iff. auto. Qed.
+  Lemma tget_in_trest_other t h h0 x : h <> h0 -> In x (bucket_items (tget K t h)) -> In x (trest t h0).
+  Proof.
+    intros N. induction t as [|[k b] t IH]; simpl; auto. destruct (k =? h)%Z eqn:E.
+    - apply Z.eqb_eq in E. subst. intros I. replace (h =? h0)%Z with false by (symmetry; apply Z.eqb_neq; auto).
+      apply in_app_iff. auto.
+    - intros I. specialize (IH I). destruct (k =? h0)%Z; [eapply trest_sub; eauto | apply in_app_iff; auto].
+  Qed.
+  Lemma trest_tput_other t h b' h0 x : h <> h0 -> In x (trest (tput K t h b') h0) ->
+    In x (bucket_items b') \/ In x (trest t h0).
+  Proof.
+    intros N. induction t as [|[k b] t IH]; simpl.
+    - replace (h =? h0)%Z with false by (symmetry; apply Z.eqb_neq; auto). rewrite app_nil_r. auto.
+    - destruct (k =? h)%Z eqn:E; simpl.
+      + apply Z.eqb_eq in E. subst. replace (h =? h0)%Z with false by (symmetry; apply Z.eqb_neq; auto).
+        rewrite !in_app_iff. tauto.
+      + destruct (k =? h0)%Z eqn:E0.
+        * intros I. eapply Permutation_in in I; [|apply tput_split]. apply in_app_iff in I as [I|I]; auto.
+          right. eapply trest_sub; eauto.
+        * rewrite !in_app_iff. intros [I|I]; auto. destruct (IH I); auto.
+  Qed.
+
+  (* entries outside the bucket selected by h do not hash to h *)
+  Definition J (t : tbl) : Prop := forall h k v, In (k, v) (trest t h) -> hsh k <> h.
+  Definition G (l : items) : Prop := forall k v, In (k, v) l -> good k.
+
+  Lemma local t k k' v : J t -> G (titems t) -> good k -> In (k', v) (titems t) -> eqv k k' = true ->
+    In (k', v) (bucket_items (tget K t (hsh k))).
+  Proof.
+    intros HJ HG Gk I E. eapply Permutation_in in I; [|apply (tget_split t (hsh k))].
+    apply in_app_iff in I as [I|I]; auto. exfalso. apply (HJ _ _ _ I). symmetry. apply eqv_hsh; auto.
+    apply (HG k' v). eapply trest_sub; eauto.
+  Qed.
+
+  Lemma nomatch_local t k : J t -> G (titems t) -> good k ->
+    nomatch (bucket_items (tget K t (hsh k))) k -> nomatch (titems t) k.
+  Proof.
+    intros HJ HG Gk N k' v I. destruct (eqv k k') eqn:E; auto.
+    rewrite <- (N k' v); auto. eapply local; eauto.
+  Qed.
+
+  Lemma J_tput t h b1 : J t ->
+    (forall k v, In (k, v) (bucket_items b1) -> (exists v0, In (k, v0) (bucket_items (tget K t h))) \/ hsh k = h) ->
+    J (tput K t h b1).
+  Proof.
+    intros HJ C h0 k0 v0 I. destruct (Z.eq_dec h h0) as [->|N].
+    - rewrite trest_tput_same in I. eauto.
+    - apply trest_tput_other in I; auto. destruct I as [I|I]; [|eauto].
+      destruct (C _ _ I) as [[v1 I1]|E]; [|congruence].
+      eapply HJ. eapply tget_in_trest_other; eauto.
+  Qed.
+
+  (* ---------------- simulation *)
+  Notation tmap := (tmap K).
+  Notation map_items := (map_items K).
+  Definition Inv (m : tmap) : Prop :=
+    match table K m with None => True | Some t => J t end /\ G (map_items m).
+  Definition Sim (m : tmap) (l : items) : Prop :=
+    Inv m /\ Permutation (map_items m) l /\ uniq l /\ mlen K m = Z.of_nat (length l).
+
+  Lemma map_items_some m t : table K m = Some t -> map_items m = titems t.
+  Proof. unfold Model.map_items. intros ->. reflexivity. Qed.
+
+  Lemma at_sim m l k : Sim m l -> good k -> map_at K eqv hsh m k = a_at l k.
+  Proof.
+    intros ([HJ HG] & P & U & L) Gk. unfold map_at. destruct (table K m) as [t|] eqn:T.
+    - rewrite (map_items_some _ _ T) in *.
+      destruct (at_loop K eqv k (tget K t (hsh k))) as [v|] eqn:A, (a_at l k) as [v'|] eqn:B; auto.
+      + apply at_loop_some in A as (k1 & I1 & E1). apply a_at_some in B as (k2 & I2 & E2).
+        apply tget_sub in I1. eapply Permutation_in in I1; [|exact P].
+        pose proof (uniq_same _ _ _ _ _ _ U I1 I2 E1 E2) as X. inversion X. reflexivity.
+      + apply at_loop_some in A as (k1 & I1 & E1). apply a_at_none in B.
+        apply tget_sub in I1. eapply Permutation_in in I1; [|exact P]. rewrite (B _ _ I1) in E1. discriminate.
+      + apply a_at_some in B as (k2 & I2 & E2). apply at_loop_none in A.
+        apply nomatch_local in A; auto. eapply Permutation_in in I2; [|symmetry; exact P].
+        rewrite (A _ _ I2) in E2. discriminate.
+    - unfold Model.map_items in P. rewrite T in P. apply Permutation_nil in P. subst. reflexivity.
+  Qed.
+
+  Lemma uniq_cons_value k p v r : uniq ((k, p) :: r) -> uniq ((k, v) :: r).
+  Proof. simpl. auto. Qed.
+
+  Lemma del_sim m l k m' b l' b' : Sim m l -> good k ->
+    map_delete K eqv hsh m k = (m', b) -> a_del l k = (l', b') -> b = b' /\ Sim m' l'.
+  Proof.
+    intros S Gk HM HA. pose proof S as ([HJ HG] & P & U & L). unfold map_delete in HM.
+    destruct (table K m) as [t|] eqn:T.
+    - rewrite (map_items_some _ _ T) in *.
+      destruct (del_loop K eqv k (tget K t (hsh k))) as [b1|] eqn:D; inversion HM; subst; clear HM.
+      + apply del_loop_some in D as (k1 & v1 & E1 & P1).
+        assert (PT : Permutation (titems t) ((k1, v1) :: titems (tput K t (hsh k) b1))).
+        { rewrite (tget_split t (hsh k)), P1, tput_split. reflexivity. }
+        assert (I1 : In (k1, v1) l). { eapply Permutation_in; [exact P|]. eapply Permutation_in; [symmetry; exact PT|]. simpl; auto. }
+        destruct b'.
+        * apply a_del_true in HA as (k2 & v2 & E2 & P2). split; auto.
+          assert (I2 : In (k2, v2) l). { eapply Permutation_in; [symmetry; exact P2|]. simpl; auto. }
+          pose proof (uniq_same _ _ _ _ _ _ U I1 I2 E1 E2) as X. inversion X; subst.
+          assert (PL : Permutation (titems (tput K t (hsh k) b1)) l').
+          { eapply Permutation_cons_inv. rewrite <- PT, P. exact P2. }
+          repeat split.
+          -- simpl. apply J_tput; auto. intros k0 v0 I0. left. exists v0.
+             eapply Permutation_in; [symmetry; exact P1|]. simpl; auto.
+          -- unfold Model.map_items. simpl. intros k0 v0 I0. apply (HG k0 v0).
+             eapply Permutation_in; [symmetry; exact PT|]. simpl; auto.
+          -- unfold Model.map_items. simpl. exact PL.
+          -- apply (uniq_perm _ _ P2) in U. simpl in U. tauto.
+          -- simpl. rewrite L. rewrite (Permutation_length P2). simpl length. lia.
+        * apply a_del_false in HA as [-> N]. rewrite (N _ _ I1) in E1. discriminate.
+      + apply del_loop_none in D. apply nomatch_local in D; auto.
+        destruct b'.
+        * apply a_del_true in HA as (k2 & v2 & E2 & P2).
+          assert (I2 : In (k2, v2) (titems t)). { eapply Permutation_in; [symmetry; exact P|]. eapply Permutation_in; [symmetry; exact P2|]. simpl; auto. }
+          rewrite (D _ _ I2) in E2. discriminate.
+        * apply a_del_false in HA as [-> N]. split; auto.
+    - inversion HM; subst. unfold Model.map_items in P. rewrite T in P. apply Permutation_nil in P. subst.
+      simpl in HA. inversion HA; subst. split; auto.
+  Qed.
+
+  Lemma set_new_sim t (m : tmap) l k v b1 l' o' :
+    table K m = Some t -> Sim m l -> good k ->
+    nomatch (bucket_items (tget K t (hsh k))) k ->
+    Permutation (bucket_items b1) ((k, v) :: bucket_items (tget K t (hsh k))) ->
+    a_set l k v = (l', o') ->
+    o' = None /\ Sim (mkM K (Some (tput K t (hsh k) b1)) (mlen K m + 1)) l'.
+  Proof.
+    intros T S Gk N P1 HA. pose proof S as ([HJ HG] & P & U & L). rewrite T in HJ. rewrite (map_items_some _ _ T) in *.
+    apply nomatch_local in N; auto.
+    assert (NL : nomatch l k) by (eapply nomatch_perm; eauto).
+    destruct o' as [p|].
+    - apply a_set_some in HA as (k2 & r2 & E2 & P2 & _).
+      assert (I2 : In (k2, p) l). { eapply Permutation_in; [symmetry; exact P2|]. simpl; auto. }
+      rewrite (NL _ _ I2) in E2. discriminate.
+    - apply a_set_none in HA as [_ P2]. split; auto.
+      assert (PT : Permutation (titems (tput K t (hsh k) b1)) ((k, v) :: titems t)).
+      { rewrite tput_split, P1, (tget_split t (hsh k)). reflexivity. }
+      repeat split.
+      + simpl. apply J_tput; auto. intros k0 v0 I0. eapply Permutation_in in I0; [|exact P1].
+        destruct I0 as [X|I0]; [inversion X; subst; auto | eauto].
+      + unfold Model.map_items. simpl. intros k0 v0 I0. eapply Permutation_in in I0; [|exact PT].
+        destruct I0 as [X|I0]; [inversion X; subst; auto | eauto].
+      + unfold Model.map_items. simpl. rewrite PT, P2. constructor. exact P.
+      + eapply uniq_perm; [symmetry; exact P2|]. simpl. auto.
+      + simpl. rewrite L, (Permutation_length P2). simpl length. lia.
+  Qed.
+
+  Lemma set_sim m l k v m' o l' o' : Sim m l -> good k ->
+    map_set K eqv hsh m k v = (m', o) -> a_set l k v = (l', o') -> o = o' /\ Sim m' l'.
+  Proof.
+    intros S Gk HM HA. pose proof S as ([HJ HG] & P & U & L). unfold map_set in HM.
+    destruct (table K m) as [t|] eqn:T.
+    - destruct (set_loop K eqv k v (tget K t (hsh k))) as [[p b1]|] eqn:D.
+      + inversion HM; subst; clear HM. rewrite (map_items_some _ _ T) in *.
+        apply set_loop_some in D as (k1 & r & E1 & P1 & P1').
+        assert (PT : Permutation (titems t) ((k1, p) :: r ++ trest t (hsh k))).
+        { rewrite (tget_split t (hsh k)), P1. reflexivity. }
+        assert (I1 : In (k1, p) l). { eapply Permutation_in; [exact P|]. eapply Permutation_in; [symmetry; exact PT|]. simpl; auto. }
+        destruct o' as [p'|].
+        * apply a_set_some in HA as (k2 & r2 & E2 & P2 & P2').
+          assert (I2 : In (k2, p') l). { eapply Permutation_in; [symmetry; exact P2|]. simpl; auto. }
+          pose proof (uniq_same _ _ _ _ _ _ U I1 I2 E1 E2) as X. inversion X; subst. split; auto.
+          assert (PR : Permutation (r ++ trest t (hsh k)) r2).
+          { eapply Permutation_cons_inv. rewrite <- PT, P. exact P2. }
+          assert (PT' : Permutation (titems (tput K t (hsh k) b1)) ((k2, v) :: r2)).
+          { rewrite tput_split, P1'. simpl. constructor. exact PR. }
+          repeat split.
+          -- simpl. apply J_tput; auto. intros k0 v0 I0. left. eapply Permutation_in in I0; [|exact P1'].
+             destruct I0 as [Y|I0].
+             ++ inversion Y; subst. exists p'. eapply Permutation_in; [symmetry; exact P1|]. simpl; auto.
+             ++ exists v0. eapply Permutation_in; [symmetry; exact P1|]. simpl; auto.
+          -- unfold Model.map_items. simpl. intros k0 v0 I0. eapply Permutation_in in I0; [|exact PT'].
+             destruct I0 as [Y|I0].
+             ++ inversion Y; subst. apply (HG k0 p'). eapply Permutation_in; [symmetry; exact P|]. exact I2.
+             ++ apply (HG k0 v0). eapply Permutation_in; [symmetry; exact P|].
+                eapply Permutation_in; [symmetry; exact P2|]. simpl; auto.
+          -- unfold Model.map_items. simpl. rewrite PT', P2'. reflexivity.
+          -- eapply uniq_perm; [symmetry; exact P2'|]. eapply uniq_cons_value. eapply uniq_perm; [exact P2|exact U].
+          -- simpl. rewrite L, (Permutation_length P2), (Permutation_length P2'). reflexivity.
+        * apply a_set_none in HA as [N _]. rewrite (N _ _ I1) in E1. discriminate.
+      + apply set_loop_none in D.
+        destruct (fill_last_hole K (mkE K (Some k) v) (tget K t (hsh k))) as [b1|] eqn:F; inversion HM; subst; clear HM.
+        * apply fill_last_hole_some in F. destruct (set_new_sim _ _ _ _ _ _ _ _ T S Gk D F HA) as [-> S']. auto.
+        * assert (F2 : Permutation (bucket_items (tget K t (hsh k) ++ [mkE K (Some k) v])) ((k, v) :: bucket_items (tget K t (hsh k)))).
+          { rewrite bucket_items_app. unfold Model.bucket_items at 2. simpl. rewrite Permutation_app_comm. reflexivity. }
+          destruct (set_new_sim _ _ _ _ _ _ _ _ T S Gk D F2 HA) as [-> S']. auto.
+    - inversion HM; subst; clear HM. unfold Model.map_items in P. rewrite T in P. apply Permutation_nil in P. subst.
+      simpl in HA. inversion HA; subst. split; auto. repeat split.
+      + simpl. intros h0 k0 v0. simpl. destruct (hsh k =? h0)%Z eqn:E; simpl; [tauto|].
+        unfold Model.bucket_items. simpl. intros [X|[]]. inversion X; subst. apply Z.eqb_neq in E. exact E.
+      + unfold Model.map_items, Model.bucket_items. simpl. intros k0 v0 [X|[]]. inversion X; subst. exact Gk.
+      + unfold Model.map_items, Model.bucket_items. simpl. reflexivity.
+      + intros k1 v1 H1. destruct H1.
+      + simpl. rewrite L. simpl. lia.
+  Qed.
+
+  (* ---------------- histories *)
+  Definition spec_step (l : items) (o : mop K) : items * mout K :=
+    match o with
+    | OSet k v => let (l', p) := a_set l k v in (l', RPrev p)
+    | OAt k => (l, RVal (a_at l k))
+    | ODel k => let (l', b) := a_del l k in (l', RDel b)
+    | OLen => (l, RLen (Z.of_nat (length l)))
+    | OItems => (l, RItems l)
+    end.
+  Fixpoint spec_run (l : items) (ops : list (mop K)) : items * list (mout K) :=
+    match ops with
+    | [] => (l, [])
+    | o :: ops' => let (l1, r) := spec_step l o in let (l2, rs) := spec_run l1 ops' in (l2, r :: rs)
+    end.
+  (* equal outputs; Iterate's unspecified order: the same entries *)
+  Definition out_equiv (a b : mout K) : Prop :=
+    match a, b with
+    | RItems x, RItems y => Permutation x y
+    | _, _ => a = b
+    end.
+  Definition op_good (o : mop K) : Prop :=
+    match o with OSet k _ | OAt k | ODel k => good k | _ => True end.
+
+  Lemma step_sim m l o : Sim m l -> op_good o ->
+    Sim (fst (map_step K eqv hsh m o)) (fst (spec_step l o)) /\
+    out_equiv (snd (map_step K eqv hsh m o)) (snd (spec_step l o)).
+  Proof.
+    intros S Go. destruct o as [k v|k|k| |]; simpl in *.
+    - destruct (map_set K eqv hsh m k v) as [m' p] eqn:HM, (a_set l k v) as [l' p'] eqn:HA.
+      destruct (set_sim _ _ _ _ _ _ _ _ S Go HM HA) as [-> S']. simpl. auto.
+    - split; auto. rewrite (at_sim _ _ _ S Go). reflexivity.
+    - destruct (map_delete K eqv hsh m k) as [m' p] eqn:HM, (a_del l k) as [l' p'] eqn:HA.
+      destruct (del_sim _ _ _ _ _ _ _ S Go HM HA) as [-> S']. simpl. auto.
+    - split; auto. destruct S as (_ & _ & _ & L). rewrite L. reflexivity.
+    - split; auto. destruct S as (_ & P & _). exact P.
+  Qed.
+
+  Lemma run_sim ops : forall m l, Sim m l -> Forall op_good ops ->
+    Sim (fst (map_run K eqv hsh m ops)) (fst (spec_run l ops)) /\
+    Forall2 out_equiv (snd (map_run K eqv hsh m ops)) (snd (spec_run l ops)).
+  Proof.
+    induction ops as [|o ops IH]; intros m l S F; simpl.
+    - split; auto.
+    - inversion F as [|? ? Go F']; subst. destruct (step_sim m l o S Go) as [S1 E1].
+      destruct (map_step K eqv hsh m o) as [m1 r] eqn:HM, (spec_step l o) as [l1 r'] eqn:HA. simpl in S1, E1.
+      destruct (IH m1 l1 S1 F') as [S2 E2].
+      destruct (map_run K eqv hsh m1 ops) as [m2 rs], (spec_run l1 ops) as [l2 rs']. simpl in *. auto.
+  Qed.
+
+  Lemma sim_empty : Sim (empty_map K) [].
+  Proof. repeat split; simpl; auto. intros ? ? []. Qed.
+
+  Theorem map_refines_assoc ops : Forall op_good ops ->
+    let mr := map_run K eqv hsh (empty_map K) ops in
+    let sr := spec_run [] ops in
+    Forall2 out_equiv (snd mr) (snd sr)
+    /\ Permutation (map_items (fst mr)) (fst sr)
+    /\ mlen K (fst mr) = Z.of_nat (length (fst sr))
+    /\ uniq (fst sr).
+  Proof.
+    intros F mr sr. destruct (run_sim ops _ _ sim_empty F) as [(_ & P & U & L) E]. auto.
+  Qed.
 End MapRef.
+
+(* ---------------- instantiation: keys are type terms, identity is identb, the hash is hashFor *)
+From Verif Require Import C28.Proof.
+Lemma map_refines_assoc_ty (nh : N -> Z) (e : env) (ops : list (mop ty)) :
+  Forall (op_good ty (fun t => wfb e t = true)) ops ->
+  let mr := map_run ty identb (hash nh) (empty_map ty) ops in
+  let sr := spec_run ty identb [] ops in
+  Forall2 (out_equiv ty) (snd mr) (snd sr)
+  /\ Permutation (map_items ty (fst mr)) (fst sr)
+  /\ mlen ty (fst mr) = Z.of_nat (length (fst sr))
+  /\ uniq ty identb (fst sr).
+Proof.
+  apply map_refines_assoc.
+  - exact identb_refl.
+  - exact identb_sym.
+  - exact identb_trans.
+  - intros a b Ga Gb E. eapply identb_hash; eauto.
+Qed.
